@@ -317,7 +317,8 @@ def gen_options(rng, D, prof, noise_mode):
         if rng.random() < knobs.get(name, p):
             o[name] = fn()
     maybe("max_iter", 0.2, lambda: rng.randrange(1, 11))
-    maybe("tol_mesh", 0.3, lambda: _choice(rng, [1e-2, 1e-3, 1e-4, 1e-5, 1e-6, 3e-3]))
+    # incl. exact powers of two (the snapped tolerance then equals the option value)
+    maybe("tol_mesh", 0.3, lambda: _choice(rng, [1e-2, 1e-3, 1e-4, 1e-5, 1e-6, 3e-3, 2.0 ** -3, 2.0 ** -4, 0.25, 2.0 ** -7, 2.0 ** -10]))
     maybe("complete_poll", 0.25, lambda: True)
     maybe("accelerate_mesh", 0.3, lambda: False)
     maybe("cache_size", 0.4, lambda: rng.randrange(1, 9))
@@ -332,6 +333,14 @@ def gen_options(rng, D, prof, noise_mode):
         esp_bound = 2 + 2 * max(int(fes), 1)
         o["n_train_max"] = rng.randrange(esp_bound + 4, esp_bound + 44)
         o["n_train_min"] = rng.randrange(3, o["n_train_max"] + 1)
+        if rng.random() < 0.6:
+            # "max number of training data removed if too far from the current point"
+            o["buffer_ntrain"] = rng.randrange(0, 31)
+        if rng.random() < 0.5:
+            o["gp_radius"] = _choice(rng, [0.25, 0.5, 1.0, 3.0])
+    # search portfolio: single strategy, default pair, or three/four entries (sum-rule flag 0/1)
+    maybe("search_method", 0.15, lambda: _choice(rng, [[["ES-ell", 1]], [["ES-wcm", 1]], [["ES-wcm", 1], ["ES-ell", 1], ["ES-wcm", 0]],
+                                                        [["ES-ell", 0], ["ES-wcm", 1], ["ES-ell", 1], ["ES-wcm", 0]]]))
     maybe("nonlinear_scaling", 0.1, lambda: False)
     maybe("tol_fun", 0.1, lambda: _choice(rng, [1e-2, 1e-4, 1e-6]))
     maybe("tol_stall_iters", 0.15, lambda: rng.randrange(1, 6))
